@@ -22,6 +22,12 @@ OBLIGATIONS = [
     Ob('reader_properties_all', 'C04/rd_oas.c', [RO], ir='ni', stubs=TOKSTUBS, defines={'RC': 0, 'REFL': 0, 'ELEM': 7}, wrap_files=True,
        what='as reader_properties, all six combinations of the re-use record and the reference type', bound='as reader_properties',
        variants=[{'PREC': r, 'STRREF': k} for r in (28, 29) for k in (0, 1, 2)], unwind=20, timeout=1200, mem_gb=14, mem_est_gb=10, nvec=5, tier='thorough'),
+    Ob('repetition_reader_vs_reference', 'C02/rep_oas.c', [P + '21oasis_read_repetitionERNS_11OasisStreamEdRNS_10RepetitionE', '_ZNK5gdstk10Repetition11get_offsetsERNS_5ArrayINS_4Vec2EEE'], ir='ni', stubs=[x for x in TOKSTUBS if 'real' not in x and 'string' not in x],
+       model='ie', defines={'MODE': 1, 'B': 1, 'IE_BITS': 14, 'REAL_TOL': 1},
+       what='oasis_read_repetition on a specification-encoded repetition field of each type 1..11 (grids with unsigned spaces, explicit x / y lists with and without grid multiplier, arbitrary lattices by g-delta, explicit displacement lists with and without grid): the Repetition built enumerates (real Repetition::get_offsets, C11) exactly the offsets the specification defines',
+       bound='dimensions 2..3 (lists of 2..4 instances), spaces 0..5, displacements -5..5, grid multiplier 0..3; scaling 1',
+       variants=[{'RTYPE': 1, 'A': a, 'B': b} for (a, b) in ((2, 2), (3, 2))] + [{'RTYPE': t, 'A': a} for t in (2, 3, 9) for a in (2, 3)] + [{'RTYPE': 8, 'A': a, 'B': b} for (a, b) in ((2, 2), (2, 3))]
+                + [{'RTYPE': t, 'A': a} for t in (4, 5, 6, 7, 10, 11) for a in (2, 3, 4)], unwind=12, timeout=600, mem_gb=10, nvec=60),
 ]
 BOUNDS = 'one cell, one or two RECTANGLE records; all field values symbolic within 2^20 (layer/datatype full 32 bits)'
 OUTSIDE = 'every other record kind: POLYGON with a symbolic point list (no verdict in 400 s), PLACEMENT and TEXT (memory blow-up > 11 GB in the END-of-file name resolution), PATH, TRAPEZOID, CTRAPEZOID, CIRCLE, PROPERTY, CBLOCK, name tables; the whole writer direction; harness variants ELEM 2..4 are kept in harness/C04/rd_oas.c for future engines but are not run'
